@@ -460,6 +460,25 @@ class SymFloat(object):
     def __neg__(self): return SymFloat(-self.val, self.nan, self.ninf, self.pinf)
     def __pos__(self): return self
     def __abs__(self): return v_abs(self)
+
+    def __round__(self, ndigits=None):
+        """builtin round(): to the nearest integer, ties to the even one (an int
+        without ndigits, a float with ndigits == 0)."""
+        if ndigits not in (None, 0):
+            raise Unsupported("round() to a number of digits")
+        if bool(mkbool(self.nan)):
+            if ndigits is None:
+                raise ValueError("cannot convert float NaN to integer")
+            return self
+        if bool(mkbool(_isinf(self))):
+            if ndigits is None:
+                raise OverflowError("cannot convert float infinity to integer")
+            return self
+        half = self.val + z3.RealVal(1) / 2
+        r = z3.ToInt(half)
+        r = z3.If(z3.And(z3.ToReal(r) == half, r % 2 == 1), r - 1, r)
+        return SymInt(r) if ndigits is None else SymFloat(z3.ToReal(r))
+
     def __lt__(self, o): return _compare(self, o, "lt")
     def __le__(self, o): return _compare(self, o, "le")
     def __gt__(self, o): return _compare(self, o, "gt")
